@@ -328,7 +328,7 @@ func c09Shared(c *lib.Ctx) {
 		// collected while its files are shared with them
 		c.Feat("source_instance_dropped_in_process", 1)
 		src.owner = nil
-		e.db = nil // tasks were waited for above
+		e.setDB(nil) // tasks were waited for above
 		e.gcSettle()
 	}
 	readShare := func(l *liveDB, what string) {
